@@ -393,7 +393,10 @@ Definition st_oracle (pol : policy) (ops obs : list (list Z)) : bool :=
    two hook points:  busy_x (40) just before `_busy.exchange` (:160);  busy_g (42) in the winner's branch just
    before reusable_storage::alloc touches _ptr/_capacity (:164);  busy_n (43) inside reusable_storage::alloc between
    `::operator delete(_ptr)` (:50) and `_ptr = ::operator new(sz)` (:51), where _ptr dangles;  busy_s (41) at the top of
-   dealloc (:172). *)
+   dealloc (:172).  In addition the harness makes every operation on the atomic `_busy` itself a scheduling point
+   (std::atomic is intercepted while coro_storage.h is compiled): a_x (46) the exchange, a_st (45) a store, a_ld (44) a load.
+   So a creation is 40, 46 [, 42 [, 43]] and the completion of the frame in the shared block is 41, 45; whatever sequence of
+   atomic operations the code really performs shows in the trace and can be interleaved. *)
 Inductive act := ACreate (sz : Z) | AFin (newest : bool).
 Record thread := mkTh {
   t_prog : list act;
@@ -401,7 +404,9 @@ Record thread := mkTh {
   t_own : list nat;        (* slots of its live frames, oldest first *)
   t_done : nat;            (* actions completed *)
   t_res : list (list Z);   (* one result line per completed action *)
-  t_grow : option Z        (* Some k: holder paused at busy_n, inside reusable_storage::alloc between :50 and :51 (k frees done) *)
+  t_grow : option Z;       (* Some k: holder paused at busy_n, inside reusable_storage::alloc between :50 and :51 (k frees done) *)
+  t_atx : bool;            (* passed busy_x, paused right before the atomic `_busy.exchange` itself *)
+  t_ats : option nat       (* Some slot: dealloc of the frame in `slot` read a non-null owner, paused before `_busy.store(false)` *)
 }.
 Record cst := mkC { c_core : core; c_thr : list thread }.
 
@@ -435,44 +440,62 @@ Definition tstep (s : cst) (i : nat) : cst * Z :=
               if sz + ptr_sz >? s_cap (st c) then     (* :50 delete the old block; _ptr keeps its value until :51 *)
                 let c1 := mkCore (hdel_opt (hp c) (s_ptr (st c))) (st c) (frs c) (c_nfid c) (c_max c) (c_up c) (c_log c) in
                 (upd s c1 i (mkTh (t_prog t) (Some sz) (t_own t) (t_done t) (t_res t)
-                                  (Some (h_frees (hp c1) - h_frees (hp c)))), 42)
+                                  (Some (h_frees (hp c1) - h_frees (hp c))) (t_atx t) (t_ats t)), 42)
               else
                 let '(c1, f) := mk_frame pm c slot sz (mts_won (hp c) (st c) sz) in
-                (upd s c1 i (mkTh (t_prog t) None (t_own t ++ [slot]) (S (t_done t)) (t_res t ++ [cres i t c c1 f 0]) None), 42)
+                (upd s c1 i (mkTh (t_prog t) None (t_own t ++ [slot]) (S (t_done t)) (t_res t ++ [cres i t c c1 f 0]) None (t_atx t) (t_ats t)), 42)
           | Some fr =>                                (* busy_n: :51-52, then the trailer :167-168 *)
               let '(h1, id) := hnew (hp c) (sz + ptr_sz) in
               let s1 := mkSto (Some id) (sz + ptr_sz) (s_busy (st c)) (s_state (st c)) (s_bsize (st c)) (s_bcap (st c)) (s_ownc (st c)) in
               let '(c1, f) := mk_frame pm c slot sz (h1, s1, mkGr (BHeap id) (sz + ptr_sz) (sz + ptr_sz) true) in
-              (upd s c1 i (mkTh (t_prog t) None (t_own t ++ [slot]) (S (t_done t)) (t_res t ++ [cres i t c c1 f fr]) None), 43)
+              (upd s c1 i (mkTh (t_prog t) None (t_own t ++ [slot]) (S (t_done t)) (t_res t ++ [cres i t c c1 f fr]) None (t_atx t) (t_ats t)), 43)
           end
       | None =>
+          match t_ats t with
+          | Some slot =>                              (* a_st: me->_busy.store(false), :175 *)
+              match fget (frs c) slot with
+              | Some f =>
+                  let c1 := finish pm c slot f in
+                  (upd s c1 i (mkTh (t_prog t) None (t_own t) (S (t_done t)) (t_res t ++ [fres i t c c1 f]) None (t_atx t) None), 45)
+              | None =>
+                  (upd s c i (mkTh (t_prog t) None (t_own t) (S (t_done t))
+                                   (t_res t ++ [[Z.of_nat i; Z.of_nat (t_done t); 0]]) None (t_atx t) None), 45)
+              end
+          | None =>
           match t_prog t with
           | [] => (s, 0)
           | ACreate sz :: r =>
-              if s_busy (st c) then
-                let slot := c_nfid c in
-                let '(c1, f) := mk_frame pm c slot sz (mts_lost (hp c) (st c) sz) in
-                (upd s c1 i (mkTh r None (t_own t ++ [slot]) (S (t_done t)) (t_res t ++ [cres i t c c1 f 0]) None), 40)
-              else (upd s (with_busy c true) i (mkTh r (Some sz) (t_own t) (t_done t) (t_res t) None), 40)
-          | AFin nw :: r =>
+              if t_atx t then                         (* a_x: the exchange itself, :160 *)
+                if s_busy (st c) then
+                  let slot := c_nfid c in
+                  let '(c1, f) := mk_frame pm c slot sz (mts_lost (hp c) (st c) sz) in
+                  (upd s c1 i (mkTh r None (t_own t ++ [slot]) (S (t_done t)) (t_res t ++ [cres i t c c1 f 0]) None false None), 46)
+                else (upd s (with_busy c true) i (mkTh r (Some sz) (t_own t) (t_done t) (t_res t) None false None), 46)
+              else                                    (* busy_x: nothing happens between the hook and the exchange *)
+                (upd s c i (mkTh (t_prog t) None (t_own t) (t_done t) (t_res t) None true None), 40)
+          | AFin nw :: r =>                           (* busy_s: dealloc reads the trailer behind its own frame, :173-174 *)
               let skip := (upd s c i (mkTh r None (t_own t) (S (t_done t))
-                                       (t_res t ++ [[Z.of_nat i; Z.of_nat (t_done t); 0]]) None), 41) in
+                                       (t_res t ++ [[Z.of_nat i; Z.of_nat (t_done t); 0]]) None false None), 41) in
               match pick nw (t_own t) with
               | None => skip
               | Some (slot, rest) =>
                   match fget (frs c) slot with
                   | None => skip
                   | Some f =>
-                      let c1 := finish pm c slot f in
-                      (upd s c1 i (mkTh r None rest (S (t_done t)) (t_res t ++ [fres i t c c1 f]) None), 41)
+                      if f_tr f then                  (* owner != nullptr: the store comes next *)
+                        (upd s c i (mkTh r None rest (t_done t) (t_res t) None false (Some slot)), 41)
+                      else                            (* :177 the heap block is deleted, no atomic operation *)
+                        let c1 := finish pm c slot f in
+                        (upd s c1 i (mkTh r None rest (S (t_done t)) (t_res t ++ [fres i t c c1 f]) None false None), 41)
                   end
               end
+          end
           end
       end
   end.
 
 Definition t_enabled (t : thread) : bool :=
-  match t_won t, t_prog t with None, [] => false | _, _ => true end.
+  match t_won t, t_ats t, t_prog t with None, None, [] => false | _, _, _ => true end.
 Fixpoint enabled_from (l : list thread) (from : nat) : list nat :=
   match l with [] => [] | t :: r => (if t_enabled t then [from] else []) ++ enabled_from r (S from) end.
 Definition all_enabled (s : cst) : list nat := enabled_from (c_thr s) 0.
@@ -508,7 +531,7 @@ Fixpoint decode_prog (l : list Z) : list act :=
   | _ => []
   end.
 Definition decode_thread (l : list Z) : list thread :=
-  match l with 2 :: r => [mkTh (sanitize 0 (decode_prog r)) None [] 0 [] None] | _ => [] end.
+  match l with 2 :: r => [mkTh (sanitize 0 (decode_prog r)) None [] 0 [] None false None] | _ => [] end.
 Definition decode_sched (l : list Z) : list Z := match l with 9 :: r => r | _ => [] end.
 
 Definition cinit (ops : list (list Z)) : cst := mkC (init_core pm) (flat_map decode_thread ops).
@@ -517,7 +540,7 @@ Fixpoint sumlen (l : list thread) : nat :=
 
 Definition mt_final (ops : list (list Z)) : cst * list (nat * Z) :=
   let s0 := cinit ops in
-  run_sched (3 * sumlen (c_thr s0) + 2) s0 (flat_map decode_sched ops) [].
+  run_sched (4 * sumlen (c_thr s0) + length (c_thr s0) + 2) s0 (flat_map decode_sched ops) [].
 
 Definition mt_run (ops : list (list Z)) : list (list Z) :=
   let '(s, tr) := mt_final ops in
